@@ -74,12 +74,23 @@ def assumptions(prop):
                 return c
         except Exception:
             pass
+    # first one Print Assumptions over a term that mentions every theorem of the file (the dependency cone is traversed once);
+    # only if that is not closed, one per theorem to name the culprit
+    src = os.path.join(d, 'AssumAll_%s.v' % prop)
+    with open(src, 'w') as f:
+        f.write('From Pory Require Properties_%s.\n' % prop)
+        f.write('Definition all_theorems : True :=\n' + ''.join('  let _ := @Properties_%s.%s in\n' % (prop, t) for t in thms) + '  I.\nPrint Assumptions all_theorems.\n')
+    r = sh(['coqc', '-Q', os.path.join(ROOT, 'coq'), 'Pory', src], timeout=1800, cwd=d)
+    if r.returncode == 0 and 'Closed under the global context' in r.stdout and 'Axioms:' not in r.stdout:
+        res = {t: 'closed' for t in thms}
+        json.dump(res, open(cache, 'w'))
+        return res
     src = os.path.join(d, 'Assum_%s.v' % prop)
     with open(src, 'w') as f:
         f.write('From Pory Require Import Properties_%s.\n' % prop)
         for t in thms:
             f.write('Print Assumptions %s.\n' % t)
-    r = sh(['coqc', '-Q', os.path.join(ROOT, 'coq'), 'Pory', src], timeout=600, cwd=d)
+    r = sh(['coqc', '-Q', os.path.join(ROOT, 'coq'), 'Pory', src], timeout=3000, cwd=d)
     out = r.stdout
     res = {}
     # the output is a sequence of blocks, one per Print Assumptions, in order
@@ -421,7 +432,20 @@ def main_replay(path):
     return 0
 
 
+def main_assum(props):
+    """fill the Print Assumptions caches (build/assum/<prop>.json); called by tools/build.sh after the Coq build, in parallel"""
+    import concurrent.futures
+    with concurrent.futures.ThreadPoolExecutor(max_workers=10) as ex:
+        res = list(ex.map(lambda p: (p, assumptions(p)), props))
+    bad = [(p, t) for p, a in res for t, v in a.items() if v != 'closed']
+    for p, t in bad[:10]:
+        print('ASSUMPTIONS %s %s is not closed under the global context' % (p, t))
+    return 0
+
+
 if __name__ == '__main__':
+    if len(sys.argv) >= 2 and sys.argv[1] == '--assum-all':
+        sys.exit(main_assum(['C%02d' % i for i in range(1, 21)]))
     if len(sys.argv) >= 3 and sys.argv[1] == '--replay':
         sys.exit(main_replay(sys.argv[2]))
     if len(sys.argv) < 3 or sys.argv[1] not in ('quick', 'thorough'):
